@@ -24,7 +24,7 @@ COMMON_TRUST = ("Assumed: the shims' contracts for std / async-std / walkdir / p
                 "tree during a run; fewer than 2^32 statements.")
 
 PROPS = {
-    "C01": _p(["generate", "find"], COMMON_TRUST + " A lock value, when present, is >= 1 (written by Breadlog).",
+    "C01": _p(["generate", "find", "entry", "directive"], COMMON_TRUST + " A lock value, when present, is >= 1 (written by Breadlog).",
               "proof for all entry lists / file sets / counter values: reduce, Insert::map (consecutive checked IDs), the drivers' alloc_inv "
               "(disjoint ranges above every existing ID) and generate_code; Kani finds counterexamples for failed obligations and, in the thorough tier, "
               "cross-checks the reduce functions on the unrewritten crate (bounded)", extra=[("kani_cross_check", _c01k.run)]),
@@ -36,12 +36,12 @@ PROPS = {
               "proves by induction over histories (developer edits, check runs, edit runs satisfying the step contract) that the lock dominates every ID ever "
               "written, hence no ID is written twice; unit main: both stop signals are wired to the stop flag before the edit driver is called "
               "(a delivered signal therefore ends the run through generate_code's exits, which write the lock) and no handler that terminates the process is installed"),
-    "C03": _p(["generate", "find"], COMMON_TRUST,
+    "C03": _p(["generate", "find", "entry", "directive"], COMMON_TRUST,
               "Insert::map: the file is its original or an is_token_insertion of it (splice over exactly the missing entries, lemma erase==original); "
               "frame on all other paths; insertion offsets proved in range and ordered for `find`'s result"),
     "C04": _p(["generate", "main", "context", "finder"], COMMON_TRUST + " Only calls that have a shim can be judged: an unshimmed external call makes the unit UNDECIDED.",
               "every mutating shim requires !check_mode at its call site; check_references / main's check branch / Context::new / discovery have frame postconditions"),
-    "C05": _p(["generate", "main", "find"], COMMON_TRUST,
+    "C05": _p(["generate", "main", "find", "entry", "directive"], COMMON_TRUST,
               "exact verdict of check_references (ok iff files found, not interrupted, tree_missing == 0); the three `missing` filters proved equal to one spec "
               "predicate; reported locations are the entries' line/column (pest's line_col trusted); count printed only on the all-success path"),
     "C06": _p(["generate", "find", "entry", "directive"], COMMON_TRUST + " The grammar clause (the PEG parser recognises the edited statement again) is NOT proved: pest's generated "
